@@ -205,7 +205,7 @@ def gen_size_case(rng):
     if rng.below(2):
         vb = [rng.choice([0, -10, 5]), rng.choice([0, 20, -3]), rng.choice([10, 100, 64, 250]), rng.choice([10, 80, 300])]
     return dict(w=length(), h=length(), vb=vb, dpi=rng.choice([72, 96, 300, 10, 4000]),
-                dw=rng.choice([100, 640, 33]), dh=rng.choice([100, 480, 77]))
+                dw=rng.choice([100, 640, 33]), dh=rng.choice([100, 480, 77]), content=rng.below(3) != 0)
 
 
 def size_doc(c):
@@ -217,7 +217,8 @@ def size_doc(c):
     if c['vb'] is not None:
         a += ' viewBox="%s"' % ' '.join(str(v) for v in c['vb'])
     # content with a known bounding box (10,20)-(70,50) for the no-viewBox percent fallback
-    return '<svg %s%s><rect x="10" y="20" width="60" height="30"/></svg>' % (NS, a)
+    body = '<rect x="10" y="20" width="60" height="30"/>' if c.get('content', True) else '<g/>'
+    return '<svg %s%s>%s</svg>' % (NS, a, body)
 
 
 def size_oracle(c):
@@ -236,7 +237,7 @@ def size_oracle(c):
     h, rh = one(c['h'], 1)
     if not (w > 0 and h > 0):
         return 'InvalidSize'
-    if (rw or rh) and c['vb'] is None:
+    if (rw or rh) and c['vb'] is None and c.get('content', True):
         # percentages of the default size are only a fallback: the size becomes the content's bbox extent
         return (70.0, 50.0)
     return (w, h)
@@ -377,6 +378,46 @@ def run(ctx):
                           dict(doc=d, dpi=c['dpi'], default_size=[c['dw'], c['dh']], expected=str(exp), got=str(got)))
             if len(ctx.violations) > 6:
                 break
+    # the same cases through the Coq model of resolve_svg_size (comparison inside Coq)
+    UNIT = {'': 'UNone', 'px': 'UPx', 'in': 'UIn', 'cm': 'UCm', 'mm': 'UMm', 'pt': 'UPt', 'pc': 'UPc', '%': 'UPercent'}
+
+    def clen(l):
+        if l is None:
+            return 'None'
+        return "(Some {| l_num := %s; l_unit := %s |})" % (qstr(float(l[0])), UNIT[l[1]])
+    items = []
+    imap = []
+    for i, (c, o) in enumerate(zip(scases, souts)):
+        try:
+            tree = json.loads(o)
+        except (TypeError, ValueError):
+            continue
+        if 'crash' in tree or 'panic' in tree:
+            continue
+        restore_case = c['vb'] is None and ((c['w'] is None or c['w'][1] == '%') or (c['h'] is None or c['h'][1] == '%'))
+        if restore_case and c.get('content', True):
+            continue   # size replaced by the content extent afterwards (checked by the oracle above)
+        vb = 'None' if c['vb'] is None else "(Some {| rx := %s; ry := %s; rw := %s; rh := %s |})" % tuple(qstr(float(v)) for v in c['vb'])
+        got = 'None' if 'error' in tree else "(Some {| sw := %s; sh := %s |})" % (qstr(tree['size'][0]), qstr(tree['size'][1]))
+        items.append("(fst (resolve_svg_size %s %s %s %s 12 {| sw := %s; sh := %s |}), %s)"
+                     % (clen(c['w']), clen(c['h']), vb, qstr(float(c['dpi'])), qstr(float(c['dw'])), qstr(float(c['dh'])), got))
+        imap.append(i)
+    if items:
+        body = ("Local Open Scope Q_scope.\nDefinition cases : list (option qsize * option qsize) := [\n%s\n].\n"
+                "Eval vm_compute in (bad_indices (fun p => opt_eqb (size_close (1 # 10000)) (fst p) (snd p)) cases).\n"
+                % ";\n".join(items))
+        rc, out = ctx.coq_eval('k_svgsize', body, ['Model.Base', 'Model.Corr', 'Gen.Units', 'Model.SvgSize'])
+        badl = ctx.parse_N_list(out) if rc == 0 else None
+        if badl is None:
+            ctx.log("svg-size model evaluation failed:\n" + out[-1500:])
+            if proof_ok:
+                ctx.violation("svg-size correspondence could not be evaluated", dict(log=out[-1500:]), found_input=False)
+        else:
+            ctx.cov['size_correspondence_cases'] = len(items)
+            for b in badl[:3]:
+                i = imap[b]
+                ctx.violation("model of resolve_svg_size and implementation disagree on the document size",
+                              dict(doc=sdocs[i], options=str(scases[i]), impl=souts[i][:80]))
     ctx.cov['size_cases'] = len(scases)
     ctx.cov['size_kinds'] = kinds
     ctx.add_sample(dict(op='svg-size', doc=sdocs[0], dpi=scases[0]['dpi']))
